@@ -2811,3 +2811,8 @@ grep --extended-regexp "PATTERNS are extended regular expressions";
         assert!(teq(e, expected_expr_id, &arena));
     }
 }
+
+#[cfg(feature = "verif")]
+pub fn verif_dot_escape(s: &str) -> String {
+    dot_escape(s)
+}
